@@ -145,14 +145,21 @@ func c04Body(w *W) {
 	}
 
 	// S3: every byte after a backslash, at every position 0..70, 4 paddings.
-	w.Note("S3: every byte value after a backslash x position 0..70 in the string x 4 paddings, value and key")
+	s3pos, s3pads := 70, []int{0, 1, 31, 33}
+	if w.Thorough() {
+		s3pos, s3pads = 140, nil
+		for p := 0; p < 64; p++ {
+			s3pads = append(s3pads, p)
+		}
+	}
+	w.Note(fmt.Sprintf("S3: every byte value after a backslash x position 0..%d in the string x %d paddings, value and key", s3pos, len(s3pads)))
 	for bv := 0; bv < 256; bv++ {
 		w.res.States++
 		if !w.Mine() {
 			continue
 		}
-		for pos := 0; pos <= 70; pos++ {
-			for _, pad := range []int{0, 1, 31, 33} {
+		for pos := 0; pos <= s3pos; pos++ {
+			for _, pad := range s3pads {
 				lit := append([]byte{'"'}, bytes.Repeat([]byte{'a'}, pos)...)
 				lit = append(lit, '\\', byte(bv), 'x', '"')
 				for _, in := range keyAndValue(lit, pad) {
@@ -164,7 +171,11 @@ func c04Body(w *W) {
 	}
 
 	// S4: every byte value in each hex position (first unit and low surrogate).
-	w.Note("S4: every byte value in each of the 4 hex positions of \\u0041 and of both halves of \\ud83d\\ude00, 4 alignments")
+	s4pads := []int{0, 7, 30, 61}
+	if w.Thorough() {
+		s4pads = s3pads
+	}
+	w.Note(fmt.Sprintf("S4: every byte value in each of the 4 hex positions of \\u0041 and of both halves of \\ud83d\\ude00, %d alignments", len(s4pads)))
 	for _, tmpl := range []string{`"\u0041"`, `"\ud83d\ude00"`, `"abc\ud83d\ude00"`} {
 		t := []byte(tmpl)
 		hexpos := map[int]bool{}
@@ -186,7 +197,7 @@ func c04Body(w *W) {
 			for bv := 0; bv < 256; bv++ {
 				m := append([]byte(nil), t...)
 				m[i] = byte(bv)
-				for _, pad := range []int{0, 7, 30, 61} {
+				for _, pad := range s4pads {
 					for _, in := range keyAndValue(m, pad) {
 						w.res.Transitions++
 						c04Doc(w, s, in, "S4-hex-positions", modes)
@@ -272,7 +283,7 @@ func c04Body(w *W) {
 	// S7: each escape kind at every position of every length, all offsets.
 	maxL7 := 66
 	if w.Thorough() {
-		maxL7 = 130
+		maxL7 = 260
 	}
 	kinds := []string{`\n`, `\"`, `\\`, `\/`, `\u0041`, `\u00e9`, `\u20ac`, `\ud83d\ude00`, "é", "😀"}
 	w.Note(fmt.Sprintf("S7: %d escape kinds at every position of every string length <= %d x start offsets 0..63", len(kinds), maxL7))
